@@ -12,14 +12,14 @@ COMMON_NOTE = ("Trusted: Lean 4.33 kernel (+ propext, Classical.choice, Quot.sou
                "(harness/ + lean/Main.lean + tools/) for the algorithmic parts; Rust std and the sha256 crate are modelled by contract. ")
 
 P = {
-    "C01": ("proof", "Theorems (any grammar, any token sequence of any length, any payload type): for an automaton given as data that the executable validator accepts (validB, proved sound: validB_sound ⇒ Sound ∧ Complete), the loop of the emitted parse never panics and, whenever it ends, returns Ok iff the token kinds are derivable from the start symbol; every sentence terminates with its tree (C01_accepts_iff, C01_sentences_terminate, C01_no_panic_and_sound, C01_complete). "
-            "validB is run on the machine and table the *implementation* built for every generated grammar (per-grammar proof for all strings), and the compiled emitted parsers are run against an Earley recogniser and the model driver. "
-            "Residue: halting on non-sentences is tested (watchdog), not proved; 'validB holds for the generator's output for *every* grammar' (DESIGN §6.2) is not a theorem.",
-            "§0, §6.1, §7 C01", "generic LR theorems + proved-sound validator on the implementation's automata + compiled-parser correspondence"),
-    "C02": ("proof", "Theorems: an accepted run returns a well-formed derivation tree whose leaves are the input tokens themselves (payloads opaque), each once and in order, and it is the only derivation tree of that input (C02_faithful, C02_tree, C02_that_tree, C02_unique), for every validB-accepted automaton. "
+    "C01": ("proof", "Generator theorem (every validated file, every token sequence of any length, any payload type; C01_every_grammar): whenever Encode.encode, validated_ast_to_machine (FIRST fixpoint, closures, worklist with LALR merging by core, renumbering) and machine_to_table succeed in the model, the emitted parse loop over the emitted tables never panics and, whenever it ends, returns Ok iff the token kinds are derivable from the start symbol. Proof chain (≈3 500 lines, Proofs/{First,Closure,Cores,Build,Normalize,Generator,TableCells,Assemble,Universal,Encode}): FIRST map closed; closures closed and kernel-generated; worklist invariants through merge/append; normalisation is an isomorphism; table cells = item demands / transitions; hence machine+table pass every check of the validator (C01_generator_passes_validator), whose soundness (validB_sound ⇒ Sound ∧ Complete) and the generic LR theorems (C01_accepts_iff, C01_sentences_terminate, C01_no_panic_and_sound, C01_complete) finish. "
+            "Tie to the code: the model equals the implementation at every stage (tokens … machine, table, text) on every generated grammar; independently the validator is run on the machine and table the *implementation* built, and the compiled emitted parsers are run against an Earley recogniser and the model driver. "
+            "Residue: halting of the driver on non-sentences and of the generator loops (fuel) is tested (watchdog), not proved; the name↔rank coding of symbols (Encode) is covered by the stage correspondence.",
+            "§0, §6.1–6.2, §7 C01", "generator theorem for every grammar + stage-by-stage model=implementation + validator on the implementation's automata + compiled-parser correspondence"),
+    "C02": ("proof", "Theorems: for every validated file for which the generator stages succeed, whatever the emitted loop returns with Ok is a derivation tree of the grammar whose leaves are the input tokens themselves (payloads opaque), each once and in order, and it is the only derivation tree of that input (C02_every_grammar, via the generator theorem); the same for every validB-accepted automaton (C02_faithful, C02_tree, C02_that_tree, C02_unique). "
             "The user-visible value (userView, derive(Debug) rendering) is compared with the compiled parser's Ok value and with the Earley oracle's unique tree projected through the declared fieldsets; a panic on a sentence is a violation.",
-            "§0, §6.1, §7 C02", "generic LR theorems + Debug-rendering correspondence"),
-    "C03": ("proof", "Theorems, for every token sequence and payload type: for every grammar and automaton accepted by the three proved-sound executable validators validB (Sound ∧ Complete), tightB (every item in the closure of its state's kernel, no empty target state) and productiveB, an error stop of the emitted loop has consumed a prefix of some sentence, its lookahead token is the first token that makes the prefix dead, and Err(None) only happens on a proper prefix of a sentence (C03_first_offending); the error is never early for any Complete automaton (C03_not_early); the run up to the error is independent of everything after the lookahead (C03_lookahead_only = nothing beyond the reported token is used); C03_viable. The validators run on the implementation's own machine and table for every generated grammar, and in the kernel on parser.rs (C03_front_end, C03_front_end_first_offending). "
+            "§0, §6.1–6.2, §7 C02", "generator theorem + generic LR theorems + Debug-rendering correspondence"),
+    "C03": ("proof", "Theorems, for every token sequence and payload type: for every validated file with productive nonterminals for which the generator stages succeed, an error stop of the emitted loop over the emitted tables satisfies the three clauses below (C03_every_grammar, via the generator theorem plus: every state's cores are generated from its kernel, every transition target has a kernel item); for every grammar and automaton accepted by the three proved-sound executable validators validB (Sound ∧ Complete), tightB (every item in the closure of its state's kernel, no empty target state) and productiveB, an error stop of the emitted loop has consumed a prefix of some sentence, its lookahead token is the first token that makes the prefix dead, and Err(None) only happens on a proper prefix of a sentence (C03_first_offending); the error is never early for any Complete automaton (C03_not_early); the run up to the error is independent of everything after the lookahead (C03_lookahead_only = nothing beyond the reported token is used); C03_viable. The validators run on the implementation's own machine and table for every generated grammar, and in the kernel on parser.rs (C03_front_end, C03_front_end_first_offending). "
             "Partial: for grammars with unproductive nonterminals the reference is a canonical LR(1) driver (oracle, no theorem); the actual number of iterator pulls of the compiled parser is observed with a counting iterator.",
             "§6.1(3), §7 C03", "first-offending-token theorem over validated automata + compiled-parser correspondence with counting iterator"),
     "C04": ("proof", "Theorems (every grammar, every automaton handed to machine_to_table): success ⇒ no state has two items demanding different actions on one lookahead column (C04_ok_conflict_free); a reported conflict is such a pair (C04_conflict_genuine); a repeated identical action is not a conflict (C04_setAction_*). "
